@@ -42,6 +42,32 @@ def has(st, sub, pol=True, also=()):
     return any(p == pol and all(s in a for s in subs) for a, p in st)
 
 
+def db_is_null(atom, pol, aliases=()):
+    """does the fact (atom, pol) say that no database is attached?  (whatever the spelling of the test; `aliases` are
+    locals initialised from the handle, as in `if (BuildDB *d = db.get())` or `bool haveDB = db != nullptr`)"""
+    import re
+    a = atom.replace(".operator bool()", "").replace(".get()", "").replace("this->", "")
+    for al in aliases:
+        a = re.sub(r"\b%s\b" % re.escape(al), "db", a)
+    if a == "db":
+        return not pol
+    if a in ("(db == nullptr)", "(nullptr == db)", "(0 == db)", "(db == 0)"):
+        return pol
+    return False
+
+
+def db_aliases(f):
+    out = set()
+    for d in f.nodes:
+        if d.get("k") == "decl":
+            for v in d.get("vars", []):
+                if "init" in v:
+                    i = expr_str(core(f.nodes[v["init"]])).replace(".operator bool()", "").replace(".get()", "").replace("this->", "")
+                    if i in ("db", "(db != nullptr)", "(nullptr != db)", "operator!=(db, nullptr)", "operator!=(nullptr, db)", "static_cast<bool>(db)", "bool(db)", "!!db"):
+                        out.add(v["n"])
+    return out
+
+
 def state_writes(prog):
     """all assignments to RuleInfo::state: [(fn, node, value string)]"""
     out = []
@@ -263,6 +289,8 @@ def r_dep_record(prog, rep):
                  "on the producing task", floor=4)
     f = efn(prog, "executeTasks")
     dep = [c for c in f.calls("DependencyKeyIDs::push_back")]
+    # the element-wise append of discovered dependencies (R-DISCOVERED-APPEND's business) is not a request being recorded
+    dep = [c for c in dep if not any(a.get("k") == "forrange" and "discoveredDependencies" in expr_str(a.child("range")) for a in f.ancestors(c))]
     if not dep:
         r.violation("executeTasks|dependency-recorded", "a task's input request is never recorded as a dependency of the requesting rule", f)
         return
@@ -357,16 +385,45 @@ def r_discovered_append(prog, rep):
         return
     if len(sr) != 1:
         raise AnalysisBroken("executeTasks: setRuleResult=%d" % len(sr))
-    if len(app) != 1:
-        r.violation("executeTasks|append-present", "expected exactly one append of the discovered dependencies, found %d" % len(app), f)
-        return
-    ok = expr_str(app[0].child("obj")).endswith("ruleInfo->result.dependencies") and "discoveredDependencies" in expr_str(arg_nodes(app[0])[0])
-    r.check(ok, "executeTasks|append-roles", "", "append does not add taskInfo->discoveredDependencies to the rule's dependencies", f, app[0])
+    app = [c for c in app if expr_str(c.child("obj")).endswith("result.dependencies") or "discoveredDependencies" in expr_str(arg_nodes(c)[0])]
+    app_node = None
+    if len(app) == 1:
+        ok = expr_str(app[0].child("obj")).endswith("ruleInfo->result.dependencies") and "discoveredDependencies" in expr_str(arg_nodes(app[0])[0])
+        r.check(ok, "executeTasks|append-roles", "", "append does not add taskInfo->discoveredDependencies to the rule's dependencies", f, app[0])
+        app_node = app[0]
+    elif not app:
+        # the element-wise form: a loop over the discovered list that pushes every element, flags included, with nothing skipped
+        loops = [n for n in f.nodes if n.get("k") == "forrange" and "discoveredDependencies" in expr_str(n.child("range")) and
+                 any(c.get("k") == "call" and (c.get("fn") or "").endswith("DependencyKeyIDs::push_back") and expr_str(c.child("obj")).endswith("result.dependencies") for c in n.walk())]
+        if len(loops) != 1:
+            r.violation("executeTasks|append-present", "the discovered dependencies of a finished task are not added to the rule's recorded dependencies", f)
+            return
+        lp = loops[0]
+        pb = [c for c in lp.walk() if c.get("k") == "call" and (c.get("fn") or "").endswith("DependencyKeyIDs::push_back")]
+        vn = lp.get("var") or "dependency"
+        args = [expr_str(core(a)) for a in arg_nodes(pb[0])]
+        ok = len(pb) == 1 and args == ["%s.keyID" % vn, "%s.orderOnly" % vn, "%s.singleUse" % vn]
+        r.check(ok, "executeTasks|append-roles", "", "element-wise append records %s" % args, f, pb[0])
+        # unconditional: from the push_back up to the loop only plain blocks
+        cur, plain = pb[0], True
+        while True:
+            par = f.parent_of(cur)
+            if par is None or par is lp:
+                break
+            if par.get("k") not in ("compound", "cleanups", "cast"):
+                plain = False
+            cur = par
+        skips = [x for x in lp.child("body").walk() if x.get("k") in ("continue", "break", "return", "goto")]
+        r.check(plain and not skips, "executeTasks|append-complete", "", "a discovered dependency can be left out of the recorded list (the element-wise append is conditional): "
+                "a key that is also recorded as an order-only or single-use input would then never trigger a re-run", f, pb[0])
+        app_node = lp.child("range")
+    else:
+        raise AnalysisBroken("executeTasks: %d appends of discovered dependencies" % len(app))
     ft = finished_take(prog, f)
     if ft is None:
         raise AnalysisBroken("executeTasks: finished task pop not found")
     pops = [ft["site"]]
-    apos = cfg.pos_of(f, app[0])
+    apos = cfg.any_pos(f, app_node)
     w = cfg.path_exists(f, cfg.pos_of(f, pops[0]), lambda p, e, sp=cfg.pos_of(f, sr[0]): p == sp, avoid=lambda p, e: p == apos)
     r.check(w is None, "executeTasks|append-before-db-write", "", "result can be persisted without its discovered dependencies", f, sr[0])
     # and setComplete precedes the write as well (stored builtAt is this build's)
@@ -375,6 +432,16 @@ def r_discovered_append(prog, rep):
         spos = cfg.pos_of(f, sc[0])
         w = cfg.path_exists(f, cfg.pos_of(f, pops[0]), lambda p, e, sp=cfg.pos_of(f, sr[0]): p == sp, avoid=lambda p, e: p == spos)
         r.check(w is None, "executeTasks|complete-before-db-write", "", "result can be persisted before it is stamped complete", f, sr[0])
+    # with a database attached the write is unconditional: no path from the completion stamp to the end of the task's
+    # accounting (or out of the function) goes round it.  A "nothing changed" filter is wrong by construction: builtAt,
+    # the times and the dependency list of a re-run are new even when value and signature are not.
+    if sc:
+        dec = [cfg.pos_of(f, n) for n in f.nodes if n.get("k") == "un" and n["op"] == "--" and expr_str(n.child("e")).endswith("numOutstandingUnfinishedTasks")]
+        srp = cfg.pos_of(f, sr[0])
+        w = cfg.path_exists_feasible(f, cfg.pos_of(f, sc[0]), lambda p, e: p in dec or e == "EXIT", avoid=lambda p, e: p == srp,
+                                     infeasible=lambda a, p, al=db_aliases(f): db_is_null(a, p, al))
+        r.check(w is None, "executeTasks|db-write-unconditional", "", "with a database attached a finished task's new record "
+                "(builtAt, times, dependencies) can be left unwritten: the write is guarded by more than `db`", f, sr[0])
     g = efn(prog, "taskDiscoveredDependency")
     pb = g.calls("DependencyKeyIDs::push_back")
     ok = len(pb) == 1 and "discoveredDependencies" in expr_str(pb[0].child("obj"))
@@ -902,6 +969,38 @@ def r_lockset(prog, rep):
     r.check(not bad, "lock-order", "%d nested pairs, consistent" % len(pairs), "mutexes acquired in both orders: %s" % bad)
 
 
+THREAD_CONFINED = ("ruleInfos", "ruleInfosToScan", "readyTaskInfos", "finishedInputRequests", "numOutstandingUnfinishedTasks", "db",
+                   "freeRuleScanRecords", "ruleScanRecordBlocks", "currentBlockPos", "currentBlockEnd")
+CROSS_THREAD_ENTRIES = ("taskIsComplete", "taskDiscoveredDependency")
+
+
+def r_thread_confined(prog, rep):
+    r = rep.rule("R-THREAD-CONFINED",
+                 "the two entry points the API documents as callable from any thread (completion, discovered dependency) reach — through "
+                 "every engine function they call — none of the state that has no mutex because only the engine thread touches it (the rule "
+                 "table, scan and ready queues, outstanding-task count, the database handle), and never the delegate's rule lookup", floor=2)
+    from sa.callgraph import CallGraph
+    cg = CallGraph(prog)
+    for nm in CROSS_THREAD_ENTRIES:
+        f = efn(prog, nm)
+        reach = [prog.functions[k] for k in cg.reachable_from(f.key) if k in prog.functions]
+        eng = [g for g in reach if qmatch(g.cls or "", ENGINE) or ENGINE in (g.parent or "")]
+        bad = []
+        for g in eng:
+            for fld in THREAD_CONFINED:
+                for n, kind in field_accesses(g, ENGINE + "::" + fld):
+                    bad.append((g, n, "%s of engine-thread-only %s" % (kind, fld)))
+            for c in g.calls():
+                fnm = c.get("fn") or ""
+                if c.get("k") == "call" and (qmatch(fnm, "BuildEngineDelegate::lookupRule") or fnm.split("::")[-2:-1] == ["BuildDB"]):
+                    bad.append((g, c, "call of %s" % fnm.split("(")[0]))
+        if bad:
+            for g, n, what in bad[:4]:
+                r.violation("%s|engine-thread-state" % nm, "%s in %s, reachable from the any-thread entry point %s" % (what, g.name.split("::")[-1], nm), g, n)
+        else:
+            r.ok("%s|engine-thread-state" % nm, "%d engine functions reachable: %s" % (len(eng), sorted(g.name.split("::")[-1] for g in eng)), f)
+
+
 def exempt_applies(prog, f, n, kind):
     if kind == "seed":
         # before the work loop
@@ -1007,10 +1106,9 @@ def r_protocol_order(prog, rep):
             "input requested by a task that is not waiting", h)
     a = arg_nodes(pb[0])[0] if pb else None
     if a is not None:
-        il = [x for x in a.walk() if x.get("k") == "initlist"]
-        vals = [expr_str(core(x)) for x in arg_nodes(il[0])] if il else []
-        r.check(vals[:4] == ["taskInfo", "inputID", "ruleInfo", "orderOnly"] and vals[5:6] == ["singleUse"], "addTaskInputRequest|request-fields", "",
-                "request built as %s" % vals, h)
+        got = aggregate_init(prog, a, "TaskInputRequest") or {}
+        r.check([got.get(x) for x in ("taskInfo", "inputID", "inputRuleInfo", "orderOnly", "singleUse")] == ["taskInfo", "inputID", "ruleInfo", "orderOnly", "singleUse"],
+                "addTaskInputRequest|request-fields", "", "request built as %s" % sorted(got.items()), h)
     for nm in ("taskIsComplete", "taskDiscoveredDependency"):
         k = efn(prog, nm)
         bk = BranchFacts(k, kill="assign")
@@ -1024,6 +1122,89 @@ def r_protocol_order(prog, rep):
         c = k.calls("addTaskInputRequest")
         got = tuple(expr_str(core(x)) for x in arg_nodes(c[0])[2:5]) if c else ()
         r.check(got == want, "%s|flags" % nm, "", "%s forwards (%s), expected %s" % (nm, got, want), k)
+
+
+def r_prior_value_guard(prog, rep, with_consumer=False):
+    """shared by C06 (protocol) and C09 (a definition change re-executes): the engine offers a task its prior value only together with
+    a stored result of the *same signature*; command classes read 'I was given a prior value' as 'my definition did not change'."""
+    r = rep.rule("R-PRIOR-VALUE-GUARD",
+                 "providePriorValue is reached only with a stored result (builtAt != 0) whose signature equals the rule's current one; the "
+                 "update-if-newer shortcut of ExternalCommand::execute — which skips the command — is taken only when a prior value was given", floor=2)
+    f = efn(prog, "demandRule")
+    pv = f.calls("Task::providePriorValue")
+    if not pv:
+        r.violation("demandRule|prior-value-guard", "demandRule never offers the prior value", f)
+        return
+    bf = BranchFacts(f, kill_calls_of=KILL)
+    for i, c in enumerate(pv):
+        stp = facts_at(bf, c)
+        r.check(has(stp, "builtAt", True, ("!=", "0")) and has(stp, "signature", True, ("==",)), "demandRule|prior-value-guard" + ("#%d" % i if i else ""), "",
+                "prior value offered without a stored result of the same signature: a command whose definition changed is told it has a valid earlier result", f, c)
+    if with_consumer:
+        g = prog.fn("ExternalCommand::execute")
+        cr = g.calls("ExternalCommand::computeCommandResult")
+        bg = BranchFacts(g, kill="assign")
+        # the shortcut: computeCommandResult reached *before* the command was spawned (the other call site is the completion handler, a lambda)
+        short = [c for c in cr]
+        if not short:
+            r.ok("ExternalCommand::execute|shortcut-needs-prior-value", "no update-if-newer shortcut in execute()", g)
+        for c in short:
+            st = facts_at(bg, c)
+            r.check(has(st, "hasPriorResult", True) and has(st, "canUpdateIfNewer", True), "ExternalCommand::execute|shortcut-needs-prior-value", "",
+                    "outputs are accepted without running the command although no prior value of the same signature was given", g, c)
+        h = prog.fn("ExternalCommand::providePriorValue")
+        wr = [n for n in h.nodes if n.get("k") == "bin" and n["op"] == "=" and expr_str(n.child("l")).endswith("hasPriorResult")]
+        bh = BranchFacts(h, kill="assign")
+        ok = bool(wr) and all(has(facts_at(bh, n), "isSuccessfulCommand", True) for n in wr if expr_str(core(n.child("r"))) == "true")
+        r.check(ok, "ExternalCommand::providePriorValue|only-successful", "", "hasPriorResult is set for a prior value that is not a successful command result", h)
+
+
+def aggregate_init(prog, node, record_suffix):
+    """{field name -> rendered initialiser} of the first aggregate initialiser under `node` for the given record.
+    The extractor serialises the *semantic* form of an InitListExpr: one initialiser per field, in field order,
+    with omitted fields present as their default member initialisers — so positions are field positions."""
+    rec = prog.record(record_suffix)
+    if rec is None or node is None:
+        return None
+    names = [x["n"] for x in rec["fields"]]
+    for x in node.walk():
+        if x.get("k") == "initlist":
+            a = arg_nodes(x)
+            if len(a) == len(names):
+                return dict((nm, expr_str(core(v))) for nm, v in zip(names, a))
+    return None
+
+
+def r_request_flags(prog, rep):
+    """shared by C01, C05, C06, C07: how a request's flags travel from the Task API to the recorded dependency."""
+    r = rep.rule("R-REQUEST-FLAGS",
+                 "the orderOnly / singleUse flags given to the Task API reach the recorded dependency unchanged: the API entry points pass the "
+                 "documented constants, addTaskInputRequest stores each parameter in the request field of the same name, and the dependency is "
+                 "recorded from those fields — a single-use input that is recorded as a plain one is scanned by every later build", floor=5)
+    h = efn(prog, "addTaskInputRequest")
+    pb = [c for c in h.calls("push_back") if expr_str(c.child("obj")) == "inputRequests"]
+    if len(pb) != 1:
+        raise AnalysisBroken("addTaskInputRequest: %d pushes onto inputRequests" % len(pb))
+    got = aggregate_init(prog, arg_nodes(pb[0])[0], "TaskInputRequest")
+    if got is None:
+        # built field by field in a local
+        a0 = core(arg_nodes(pb[0])[0])
+        got = {}
+        if a0.get("k") == "ref":
+            for n in h.nodes:
+                if n.get("k") == "bin" and n["op"] == "=" and n.child("l").get("k") == "member" and expr_str(n.child("l").child("obj") if "obj" in n.child("l") else n.child("l")).startswith(expr_str(a0)):
+                    got[n.child("l").get("qn", "").split("::")[-1]] = expr_str(core(n.child("r")))
+    want = {"taskInfo": "taskInfo", "inputID": "inputID", "inputRuleInfo": "ruleInfo", "orderOnly": "orderOnly", "singleUse": "singleUse"}
+    for fld, w in sorted(want.items()):
+        r.check(got.get(fld) == w, "addTaskInputRequest|request.%s" % fld, "", "request field %s is initialised from %s, not from parameter %s" % (fld, got.get(fld), w), h, pb[0])
+    t = {"taskNeedsInput": ("false", "false"), "taskNeedsSingleUseInput": ("false", "true"), "taskMustFollow": ("true", "false")}
+    for nm, w in sorted(t.items()):
+        k = efn(prog, nm)
+        c = k.calls("addTaskInputRequest")
+        if len(c) != 1:
+            raise AnalysisBroken("%s: %d calls of addTaskInputRequest" % (nm, len(c)))
+        g2 = tuple(expr_str(core(x)) for x in arg_nodes(c[0])[3:5])
+        r.check(g2 == w, "%s|orderOnly-singleUse" % nm, "", "%s passes (orderOnly, singleUse) = %s, documented %s" % (nm, g2, w), k, c[0])
 
 
 def r_mustfollow(prog, rep):
@@ -1307,18 +1488,19 @@ def r_discovered_demanded(prog, rep):
     r = rep.rule("R-DISCOVERED-DEMANDED", "every discovered dependency of a finished task is demanded in the same build (a task-less input request per dependency, "
                                           "queued under the request mutex), so its rule is brought up to date before dependents compare epochs", floor=2)
     f = efn(prog, "executeTasks")
-    loops = [n for n in f.nodes if n.get("k") == "forrange" and "discoveredDependencies" in expr_str(n.child("range"))]
+    loops = [n for n in f.nodes if n.get("k") == "forrange" and "discoveredDependencies" in expr_str(n.child("range")) and
+             any(c.get("k") == "call" and (c.get("fn") or "").endswith("push_back") and "obj" in c and expr_str(c.child("obj")) == "inputRequests" for c in n.walk())]
     ok = len(loops) == 1
     if ok:
         lp = loops[0]
         pb = [c for c in f.calls("push_back") if expr_str(c.child("obj")) == "inputRequests" and any(x is c for x in lp.walk())]
         ok = len(pb) == 1
         if ok:
-            il = [x for x in arg_nodes(pb[0])[0].walk() if x.get("k") == "initlist"]
-            vals = [expr_str(core(x)) for x in arg_nodes(il[0])] if il else []
+            got = aggregate_init(prog, arg_nodes(pb[0])[0], "TaskInputRequest") or {}
             ls = LockSets(f)
-            ok = len(vals) >= 6 and vals[0] == "nullptr" and "getRuleInfoForKey(" in vals[2] and "dependency.keyID" in vals[2] and vals[3] == "dependency.orderOnly" and \
-                vals[5] == "dependency.singleUse" and "inputRequestsMutex" in (ls.held_at_node(pb[0]) or set()) and \
+            # the flags of a task-less request are never read (nothing is recorded and no value is delivered for it): only the null task and the rule matter
+            ok = got.get("taskInfo") == "nullptr" and "getRuleInfoForKey(" in got.get("inputRuleInfo", "") and "dependency.keyID" in got.get("inputRuleInfo", "") and \
+                "inputRequestsMutex" in (ls.held_at_node(pb[0]) or set()) and \
                 not any(x.get("k") in ("break", "continue", "return") for x in lp.child("body").walk())
     r.check(ok, "executeTasks|discovered-dependencies-demanded", "", "discovered dependencies are not all demanded in the build that discovered them", f)
     # single-use / order-only flags of a discovered dependency: recorded as given
